@@ -150,10 +150,25 @@ def fmt_path(path) -> str:
 
 
 def kwarg(call: ast.Call, name: str) -> ast.AST | None:
+    """the argument a call binds to the parameter `name`: the keyword as written, or — for calls to functions of the
+    package, which the program model spells positionally (canonical form) — the positional argument at that parameter's
+    place (recorded on the node when the program was linked; copies of the node keep the record)"""
     for k in call.keywords:
         if k.arg == name:
             return k.value
+    pos = getattr(call, "_kwpos", None)
+    if pos and name in pos and pos[name] < len(call.args) and not any(isinstance(a, ast.Starred) for a in call.args[: pos[name] + 1]):
+        return call.args[pos[name]]
     return None
+
+
+def named_args(call: ast.Call) -> list:
+    """[(parameter name, argument)] of a call: the keywords as written plus — for calls to functions of the package —
+    the positional arguments under the callee's parameter names (see kwarg)"""
+    pos = getattr(call, "_kwpos", None) or {}
+    out = [(n_, call.args[i]) for n_, i in sorted(pos.items(), key=lambda kv: kv[1]) if i < len(call.args) and not isinstance(call.args[i], ast.Starred)]
+    out += [(k.arg, k.value) for k in call.keywords if k.arg]
+    return out
 
 
 def argval(prog, fi, call: ast.Call, name: str) -> ast.AST | None:
@@ -315,6 +330,15 @@ def eq_is_conjunction(prog: Program, res, rule: str, ci: ClassInfo, eq) -> None:
                         negs += 1
                     cur = pm_.get(id(cur))
                 unequal = isinstance(a, ast.Compare) and len(a.ops) == 1 and isinstance(a.ops[0], (ast.NotEq, ast.IsNot))
+                if isinstance(a, ast.Call) and isinstance(a.func, ast.Name) and a.func.id in ("any", "all"):
+                    # any(x != y for …) says "some component differs", all(x == y for …) "all agree"; other mixes: no verdict
+                    inner_ops = {type(o) for y in ast.walk(a) if isinstance(y, ast.Compare) for o in y.ops}
+                    if a.func.id == "any" and inner_ops == {ast.NotEq}:
+                        unequal = True
+                    elif a.func.id == "all" and inner_ops == {ast.Eq}:
+                        unequal = False
+                    else:
+                        continue
                 if unequal != (negs % 2 == 1):
                     res.violation(rule, eq, p.node or eq.node, f"{ci.name}.__eq__ demands that `{unparse(a)[:60]}` {'is false' if negs % 2 else 'holds'}: an object does not compare equal to an identical copy of itself (equality is not reflexive), every check built on equality rejects operands that agree", key_extra="eq-not-reflexive")
                     return
